@@ -9,6 +9,7 @@ from common import R, Rmat, Cx, fl, flmat, cfl, max_rel_err
 from common import wiring_pre_build as pre_build  # noqa: E402,F401
 
 LEAN_MODULES = ["PyomaVerif.Props.C05", "PyomaVerif.Props.C05Charpoly", "PyomaVerif.Props.C05E2E", "PyomaVerif.Mutants.C05", "PyomaVerif.Props.WiringRun", "PyomaVerif.Props.C05Stored", "PyomaVerif.Props.WiringStore", "PyomaVerif.Props.WiringClass", "PyomaVerif.Props.WiringCalls", "PyomaVerif.Props.C05Table", "PyomaVerif.Props.C05Count"]
+LEAN_MODULES = ["PyomaVerif.Props.C05", "PyomaVerif.Props.C05Charpoly", "PyomaVerif.Props.C05E2E", "PyomaVerif.Mutants.C05", "PyomaVerif.Props.WiringRun", "PyomaVerif.Props.C05Stored", "PyomaVerif.Props.WiringStore", "PyomaVerif.Props.WiringClass", "PyomaVerif.Props.WiringCalls", "PyomaVerif.Props.C05Table", "PyomaVerif.Props.C05StoredTable"]
 THEOREMS = [
     # call-site wiring of the class layer, regenerated from /repo on every run (translate_wiring.py)
     "PV.WiringRun.C05_run_plscf",
@@ -87,6 +88,9 @@ THEOREMS = [
     "PV.Mutants.C05.noInfFix_fails",
     # depth round: the pLSCF pole table composed with the hard criteria -> the STORED tables
     "PV.C05Stored.C05_stored",
+    # the same over what the executable models plscfAll / plscfPoles return (column n-1 derived; no hrun/hrm/inputs/hin/k)
+    "PV.C05StoredTable.C05_stored_model",
+    "PV.C05StoredTable.C05_e2e_nan_pattern_model",
     "PV.C05Stored.Ex.stored",
     # the loops of pLSCF / pLSCF_poles as model functions (Model/Poles.lean plscfAll, plscfPoles): column k = order k+1, one sign for constraint and basis, table width derived
     "PV.Plscf.plscfAll_get",
